@@ -128,8 +128,12 @@ def conv_name_writer(conv, prefix):
     if conv == ["attr", ["X"], "value"]:
         return "enum"
     order = (("duration", "timedelta_ms"), ("timestamp", "datetime_ms"))
-    if "datetime.datetime(" in repr(conv):
-        order = order[::-1]  # a datetime constant (the epoch) takes part: the value is a point in time, not a duration
+    rc = repr(conv)
+    if "datetime.datetime(" in rc or "'timestamp'" in rc or "'microsecond'" in rc or "'astimezone'" in rc or "'utcoffset'" in rc:
+        # operations only a point in time has (an epoch constant, timestamp(), wall-clock fields): the value is a datetime, not a duration
+        order = order[1:]
+    elif "'total_seconds'" in rc or "'days'" in rc or "'seconds'" in rc:
+        order = order[:1]
     for kind, name in order:
         carrier = "timedelta" if kind == "duration" else "datetime"
         q = timeflow.analyse(conv, timeflow.Q(carrier, gran="1us"))
